@@ -55,6 +55,13 @@ pub fn classify(case: &Case, prog: &Prog, cx: &mut Cx) {
     cx.class_if(st.hops_carry > 0, "thread-hop-carried-frame");
     cx.class_if(st.hops_bare > 0, "thread-hop-no-frame");
     cx.class_if(st.hops_future > 0, "thread-hop-in-future");
+    cx.class_if(st.frames_run > 0, "captured-frame-run");
+    cx.class_if(st.frame_entered_where_ambient_differs, "captured-frame:entered-where-ambient-differs");
+    cx.class_if(st.foreign_frame_in_span, "foreign-frame:captured-outside-span/entered-inside-enabled-span");
+    cx.class_if(st.foreign_frame_by_call, "foreign-frame:captured-outside-span/entered-by-call");
+    cx.class_if(st.foreign_frame_by_enter, "foreign-frame:captured-outside-span/entered-by-enter-guard");
+    cx.class_if(st.foreign_frame_by_future, "foreign-frame:captured-outside-span/entered-by-in-future");
+    cx.class_if(st.frame_captured_in_span_entered_elsewhere, "captured-frame:captured-inside-span/entered-elsewhere");
     cx.class_if(st.exit_panic_sync_call, "exit:panic-sync-call");
     cx.class_if(st.exit_panic_enter_guard, "exit:panic-enter-guard");
     cx.class_if(st.exit_panic_async, "exit:panic-async");
@@ -90,8 +97,9 @@ pub fn check_case(case: &Case, cx: &mut Cx) -> Res {
     let (rt, rec) = rt::build(case.rng);
     let obs = Mutex::new(Vec::new());
     let fail = Mutex::new(None);
+    let frames: Vec<Mutex<Option<interp::CapturedFrame>>> = (0..prog.frames).map(|_| Mutex::new(None)).collect();
     {
-        let env = Env { rt: &rt, obs: &obs, fail: &fail };
+        let env = Env { rt: &rt, obs: &obs, fail: &fail, frames: &frames };
         interp::run_root(&env, case.incoming.as_ref(), &prog.items, prog.final_check);
     }
     if let Some(f) = fail.into_inner().unwrap() {
